@@ -39,6 +39,7 @@ def c05(chk, tier):
     p_probes.count(chk, recs, lambda r: (r["hist"], r["status"]))
     found = p_probes.validate_records(chk, "TraceFresh.tla", out, "V_C05", "fresh")
     p_probes.report(chk, found, "fresh", args)
+    p_probes.rel_pass(chk, "fresh", args, "TraceFresh.tla", "V_C05")
 
 
 def c03(chk, tier):
@@ -52,6 +53,7 @@ def c03(chk, tier):
     p_probes.count(chk, recs, lambda r: (r.get("kind"), r.get("fill"), r.get("burst"), r["status"]))
     found = p_probes.validate_records(chk, "TracePipe.tla", out, "V_C03", "pipe")
     p_probes.report(chk, found, "pipe", args)
+    p_probes.rel_pass(chk, "pipe", args, "TracePipe.tla", "V_C03")
 
 
 def c18(chk, tier):
